@@ -171,10 +171,14 @@ class GLit:
             return self.simple_literal(v[1], v[2])
         _, comp, vals = v
         e, s = self.struct_for(comp)
-        if not e.get("shape_ok") or e.get("type_deviation"):
+        if not (e.get("shape_ok") or e.get("names_ok")) or e.get("type_deviation"):
             raise GLit.Unbuildable(f"shape of {comp.name.xml} deviates from the reference mapping")
+        # members are matched by name: a struct whose members are all there but in another order can still be built
+        # (and its serialization then shows the order on the wire)
+        by_name = {refmap.norm_ident(f["name"]): f for f in s["fields"]}
         fields = []
-        for f, m, x in zip(s["fields"], flat_members(comp), vals):
+        for m, x in zip(flat_members(comp), vals):
+            f = by_name[m["name"].snake]
             fields.append(f"{f['name']}: {RefEmit._wrapped(m, x, self.literal)}")
         return f"{refmap.rust_path(s)} {{ {', '.join(fields)} }}"
 
